@@ -68,6 +68,8 @@ func checkC05(c *Ctx) {
 	c.As(map[string]string{"R7.4": "R5.13"}, func() { c7Wrappers(c) })
 	c.Rule("R5.17", "the slog handler filters and reports a record at the zap level of the greatest named slog level not above the record's (evaluated for every slog level): a level between Debug and Info is a debug message for Enabled and for Handle alike", 2)
 	c.Rule("R5.18", "RegisterHooks keeps a copy of the hooks: the hooks of a core already built do not change when the caller rewrites its slice", 1)
+	c.Rule("R5.19", "a core derived through With keeps the parent's level enabler itself (same sink, same enabler): a child does not freeze the threshold it was derived under", 3)
+	c.As(map[string]string{"R7.3": "R5.19"}, func() { c7Clone(c) })
 	c5HooksCopied(c, "R5.18")
 	c.As(map[string]string{"R18.2": "R5.17"}, func() { c18LevelMap(c) })
 	c.Rule("R5.16", "a printer installed by an option of the gRPC adapter pre-checks (Println) at the level its functions log at", 2)
